@@ -255,7 +255,14 @@ func fileFor(content []byte) string {
 	sum := sha1.Sum(content)
 	name := filepath.Join(tmpDir, hex.EncodeToString(sum[:10]))
 	if _, ok := tmpFiles.Load(name); !ok {
-		if err := os.WriteFile(name, append(append([]byte(nil), content...), '\n'), 0o644); err != nil {
+		// runs execute in parallel: write under a private name and rename, so that a reader never sees a partial file
+		f, err := os.CreateTemp(tmpDir, "w")
+		if err != nil {
+			panic(err)
+		}
+		f.Write(append(append([]byte(nil), content...), '\n'))
+		f.Close()
+		if err := os.Rename(f.Name(), name); err != nil {
 			panic(err)
 		}
 		tmpFiles.Store(name, true)
@@ -435,7 +442,7 @@ func renderAWK(h *history) (string, []byte) {
 }
 
 // render: the observation program, its stdin and its command-line operands. Operations are performed in a BEGIN block; in
-// the operand route ("Files") a read marked "m" is delivered by the main loop instead: the current block is closed and the
+// a read marked "m" is delivered by the main loop instead: the current block is closed and the
 // following operations run in the action of the next record (`{ seg++ } seg == k { … }`).
 func render(h *history) rendered {
 	var p strings.Builder
@@ -473,7 +480,7 @@ func render(h *history) rendered {
 			}
 		case "read":
 			feed(o.val())
-			if h.Files && o.Route == "m" {
+			if o.Route == "m" {
 				boundary()
 				p.WriteString(obsNone)
 			} else {
